@@ -5,7 +5,9 @@ RULE = ("datagrams of 0..512 bytes given to the real parse_stun_response in an e
         "RFC 5389 responses built by an independent python encoder (MAPPED / XOR-MAPPED, IPv4 / IPv6, preceded by 0..4 "
         "other attributes with lengths 0..40 and every padding), then mutated: truncation at every offset, message-length "
         "field off by -8..+8 and 0xffff, attribute length overwritten (0,3,4,7,8,19,20,0xffff), wrong type, wrong "
-        "transaction id byte, family byte 0/1/2/3, plus random bytes. Oracle (independent of the model): for an "
+        "transaction id byte, family byte 0/1/2/3, a header cookie field other than the magic cookie (decoding must not change), "
+        "an address attribute whose declared length is 1..7 / 5..19 (too short for its family) followed by padding, by another "
+        "attribute or by the end of the datagram (nothing may be decoded from it), plus random bytes. Oracle (independent of the model): for an "
         "unmutated response the reported (family, address, port) equals what was encoded; for a wrong type / txid nothing "
         "is reported; never a sanitizer report. non-trivial = an address was reported or the datagram has a valid "
         "header; distinct = distinct implementation outputs")
@@ -72,6 +74,33 @@ def generate(rng, tier):
                 v = len(body2) - short
                 m[2], m[3] = v >> 8, v & 255
                 add(m[:20 + v], txid2, "tightlen")
+        if i % 3 == 0:
+            # (a) the header's cookie field is not the magic cookie: the parser never checks it, and RFC 5389 derives the
+            #     XOR key from the CONSTANT cookie + transaction id, so the decoding must not change
+            m = list(data)
+            ck = rng.choice([[0, 0, 0, 0], [255, 255, 255, 255], [rng.randrange(256) for _ in range(4)]])
+            m[4:8] = ck
+            add(m, txid, "cookie-field", expect=list(exp))
+            # (b) the address attribute declares a length that is too short for its family (1..7 / 9..19) while the bytes
+            #     of a full address follow as padding / next attribute / end of datagram: nothing may be decoded from it
+            txid3, body3, exp3, off3 = build(rng)
+            start = None
+            o = 0
+            while o + 4 <= off3:
+                al = (body3[o + 2] << 8) | body3[o + 3]
+                nxt = o + 4 + ((al + 3) & ~3)
+                if nxt == off3:
+                    start = o
+                o = nxt
+            if start is not None:
+                full = 8 if exp3[0] == 1 else 20
+                for v in ([1, 2, 3, 5, 6, 7] if full == 8 else [5, 6, 7, 9, 17, 18, 19]):
+                    b = list(body3[:off3])
+                    b[start + 2], b[start + 3] = v >> 8, v & 255
+                    add(response(txid3, b), txid3, "short-addr-attr", expect=[])          # address attr last, padded
+                    bb = b[:start + 4 + v]                                            # datagram ends with the short value
+                    add(response(txid3, bb), txid3, "short-addr-attr-tight", expect=[])
+                    add(response(txid3, b + tlv(0x8022, [1, 2, 3, 4])), txid3, "short-addr-attr", expect=[])
         r = rng.random()
         if r < 0.25:
             for cut in (range(len(data)) if i < 6 else [rng.randrange(len(data)) for _ in range(4)]):
